@@ -394,6 +394,8 @@ def adv_text(rng, cid, token, eager_only):
         tmpl, eager = rng.choice(WRAPPERS)
         if eager_only and not eager:
             continue
+        if ' and ' in eff and not tmpl.startswith('%s'):
+            eff = '(' + eff + ')'           # keep the effect out of the wrapper's short-circuits
         text = tmpl % eff
         if lead_of(text) != want or class_id(classify_text(text, token)) != cid:
             continue
@@ -449,8 +451,8 @@ def materialize(case, d):
 
 def _finish_obs(exit_, out, err, events, d, token):
     kinds = []
-    for e in events:                    # nested eval / exec inside the spec text repeat an event
-        if not kinds or kinds[-1] != e[0]:
+    for e in events:                    # nested eval / exec inside the spec text repeat events:
+        if e[0] not in kinds:           # keep the first occurrence of each kind
             kinds.append(e[0])
     marker = bool(token) and os.path.lexists(os.path.join(d, token))
     if marker and 'effect' not in kinds:
@@ -495,11 +497,14 @@ def run_subproc(case, d):
     except subprocess.TimeoutExpired:
         raise vlib.MachineryError('child timed out: %r' % (args,))
     out, err = p.stdout.decode('utf-8', 'replace'), p.stderr.decode('utf-8', 'replace')
+    # exit class of a child: a usage error is a non-zero status without a traceback and without
+    # anything on stdout (face writes "error: ..." to stderr); a GlomError report is status 1 with
+    # its message on stdout
     if p.returncode == 0:
         ex = '0'
     elif 'Traceback (most recent call last)' in err:
         ex = 'crash'
-    elif err.lstrip().startswith('error:'):
+    elif out == '':
         ex = 'usage'
     elif p.returncode == 1:
         ex = '1'
@@ -753,13 +758,16 @@ def state_rng(st, seed):
     return random.Random(int.from_bytes(h, 'big')), h
 
 
-def signature(st):
+def signatures(st):
+    """two coarse behaviour signatures: (spec action, spec-text class, final action) and
+    (whole action history, target format)"""
     m = st['m']
-    return '/'.join(m['hist']) + '|' + m['cfg']['s']['txt']['id'] + '|' + \
-        (m['cfg']['l']['fmt'] if 'l' in m['known'] else '-') + '|' + m['cfg']['s']['fmt']
+    h = m['hist']
+    return ('A:%s|%s|%s' % (h[0], m['cfg']['s']['txt']['id'], h[-1]),
+            'B:' + '/'.join(h) + '|' + (m['cfg']['l']['fmt'] if 'l' in m['known'] else '-'))
 
 
-SUB_MOD = {'quick': 0, 'thorough': 3}     # thorough: every 3rd state also as a child process
+SUB_MOD = {'quick': 0, 'thorough': 16}    # thorough: every 16th state also as a child process
 _TIER, _SEED = ['quick'], [0]
 
 
@@ -787,7 +795,7 @@ def replay_state(st, modes, base, seed, out):
 
 def worker(states):
     out = dict(runs=0, subruns=0, cases=0, nontrivial=0, unrealizable=0, law=[], drift=[], machinery=[], samples=[],
-               sig_sub=set(), sig_first={}, agreed=0)
+               sig_sub=set(), sig_first={}, agreed=0, actions={})
     base = tempfile.mkdtemp(prefix='glomverif_c19_')
     tier, seed = _TIER[0], _SEED[0]
     try:
@@ -796,10 +804,12 @@ def worker(states):
             if m['pc'] != 'done':
                 continue
             out['cases'] += 1
+            for a in m['hist']:
+                out['actions'][a] = out['actions'].get(a, 0) + 1
             if len(m['known']) >= 2 or m['cfg']['s']['txt']['adv']:
                 out['nontrivial'] += 1
             _rng, h = state_rng(st, seed)
-            sig = signature(st)
+            sigs = signatures(st)
             modes = ['inproc']
             if SUB_MOD[tier] and int.from_bytes(h, 'big') % SUB_MOD[tier] == 0:
                 modes.append('subproc')
@@ -811,9 +821,11 @@ def worker(states):
                 out['agreed'] += 1
             if 'subproc' in modes:
                 out['subruns'] += 1
-                out['sig_sub'].add(sig)
-            elif sig not in out['sig_first']:
-                out['sig_first'][sig] = slim(st)
+                out['sig_sub'].update(sigs)
+            else:
+                for sig in sigs:
+                    if sig not in out['sig_first']:
+                        out['sig_first'][sig] = slim(st)
             if len(out['samples']) < 1 and len(m['hist']) >= 5:
                 out['samples'].append(dict(kind='tlc-state', cfg=case['cfg'], hist=m['hist'], predicted_out=m['out'],
                                            predicted_exit=m['exit'], law=m['law']['k'], argv=case['args'],
@@ -1115,10 +1127,11 @@ def _record_one(job):
 def record(check, n_sub, n_in, seed):
     base = tempfile.mkdtemp(prefix='glomverif_c19_')
     try:
-        jobs = [(i, seed, 'subproc', base) for i in range(n_sub)]
-        with ThreadPoolExecutor(vlib.NCPU) as ex:
-            recs = list(ex.map(_record_one, jobs))
-        recs += [_record_one((n_sub + i, seed, 'inproc', base)) for i in range(n_in)]
+        import multiprocessing as mp
+        jobs = [(i, seed, 'subproc', base) for i in range(n_sub)] + \
+               [(n_sub + i, seed, 'inproc', base) for i in range(n_in)]
+        with mp.get_context('fork').Pool(vlib.NCPU) as pool:
+            recs = pool.map(_record_one, jobs, chunksize=8)
     finally:
         shutil.rmtree(base, ignore_errors=True)
     rows = [r['row'] for r in recs]
@@ -1159,9 +1172,16 @@ MUTANTS = {'evalfallback': 'ExecOnlyFull', 'stdinfirst': None, 'exit0': 'GlomErr
 
 
 def self_check():
+    """the pools and the class table agree with the specification's AllTextClasses"""
+    import re
     check_malformed()
-    for cid, key in CLASS_ATTRS.items():
-        pass
+    with open(os.path.join(vlib.SPEC_DIR, 'MC_C19.tla')) as f:
+        rows = re.findall(r'TxtClass\("(\w+)",\s*"(\w+)",\s*(TRUE|FALSE),\s*(TRUE|FALSE),\s*(TRUE|FALSE),\s*'
+                          r'(TRUE|FALSE),\s*(TRUE|FALSE)\)', f.read())
+    table = {r[0]: (r[1],) + tuple(x == 'TRUE' for x in r[2:]) for r in rows}
+    if table != CLASS_ATTRS:
+        raise vlib.MachineryError('text classes of MC_C19.tla and harness/c19.py differ: %s'
+                                  % sorted(set(table.items()) ^ set(CLASS_ATTRS.items())))
     pools()
     kind_table()
 
@@ -1175,8 +1195,11 @@ def main(tier, seed):
     drift, machinery = [], []
     sig_sub, sig_first = set(), {}
     unreal = n_sub_runs = 0
+    actions = {}
     for r in results:
         n_sub_runs += r['subruns']
+        for a, n in r['actions'].items():
+            actions[a] = actions.get(a, 0) + n
         check.cov['evaluations'] += r['runs']
         check.cov['distinct_nontrivial'] += r['nontrivial']
         check.validated(r['agreed'])
@@ -1191,7 +1214,11 @@ def main(tier, seed):
         for k, v in r['sig_first'].items():
             sig_first.setdefault(k, v)
     # child processes for every behaviour signature not yet run as one
-    todo = [st for sig, st in sorted(sig_first.items()) if sig not in sig_sub]
+    todo = []
+    for sig, st in sorted(sig_first.items()):        # 'A:' signatures first
+        if sig not in sig_sub:
+            todo.append(st)
+            sig_sub.update(signatures(st))
     base = tempfile.mkdtemp(prefix='glomverif_c19_')
     try:
         def one(st):
@@ -1209,9 +1236,17 @@ def main(tier, seed):
             check.violation(b['case'], b['why'], matcher=match_finding)
         drift += r['drift']
         machinery += r['machinery']
+    # vacuity: every action of the machine is taken by some replayed behaviour
+    import re
+    with open(os.path.join(vlib.SPEC_DIR, 'GlomCli.tla')) as f:
+        named = set(re.findall(r'(?:Do|End|Usage|Crash|Pick)\("([A-Za-z]+)"', f.read()))
+    missing = sorted(named - set(actions))
+    if missing or not named:
+        raise vlib.MachineryError('actions of GlomCli never taken in the explored universe: %s' % missing)
+    check.extra['action_coverage'] = actions
     if machinery:
         raise vlib.MachineryError('%d machinery problems, first: %s' % (len(machinery), machinery[0]['why']))
-    n_sub, n_in = {'quick': (400, 2500), 'thorough': (4000, 30000)}[tier]
+    n_sub, n_in = {'quick': (250, 2500), 'thorough': (4000, 30000)}[tier]
     nrec, rdrift, _ = record(check, n_sub, n_in, seed)
     drift += rdrift
     check.cov['evaluations'] += nrec
@@ -1248,7 +1283,7 @@ def main(tier, seed):
         rule='TLC enumerates every behaviour of the GlomCli machine over the configuration space of the tier; every '
              'terminal state is made concrete (pool target/spec realising the chosen library outcome, decoy targets on '
              'the other channels) and run in-process, plus as a child process for every distinct behaviour signature '
-             '(action history x text class x formats); non-trivial = the behaviour goes beyond spec parsing or carries an '
+             '(spec action x text class x final action; action history x target format); non-trivial = the behaviour goes beyond spec parsing or carries an '
              'adversarial text; distinct by TLC state',
         exhaustive=True)
 
